@@ -48,7 +48,8 @@ def trace_run(src, name, limit=4.0):
     f = File(name, src)
     out = io.StringIO()
     trace = []
-    res = {"kind": "ok", "trace": trace}
+    args = []
+    res = {"kind": "ok", "trace": trace, "args": args}
     reg = Registry()
     depth = [0]
     pending = [None]
@@ -60,6 +61,8 @@ def trace_run(src, name, limit=4.0):
             inner = ctx.errors._inner
 
             def rr(context, rule):
+                if getattr(rule, "__name__", None) == "CheckFuncDeclaration":
+                    return rr_args(context, rule)
                 top = depth[0] == 0
                 if top:
                     before = len(inner)
@@ -77,6 +80,41 @@ def trace_run(src, name, limit=4.0):
                         opens = type(sub).__name__
                     pending[0] = (rule.__name__, nl, opens, before)
                 return r
+            def rr_args(context, rule):
+                """one invocation of CheckFuncDeclaration: the tokens it reads, fname_pos, what it emits"""
+                before = len(inner)
+                toks0 = context.tokens
+                reads = [-1, 0]
+                orig_peek = context.peek_token
+
+                def pk(pos):
+                    if pos >= 0:
+                        if pos > reads[0]:
+                            reads[0] = pos
+                    elif pos < reads[1]:
+                        reads[1] = pos
+                    return orig_peek(pos)
+                context.peek_token = pk
+                item = {"fname_pos": context.fname_pos, "scope": context.tkn_scope, "last": context.history[-1].name, "oc": 0}
+                try:
+                    return orig_rr(context, rule)
+                except CParsingError:
+                    item["oc"] = 1
+                    raise
+                except BaseException:  # noqa
+                    item["oc"] = 2
+                    raise
+                finally:
+                    del context.peek_token
+                    m = reads[0] + 1
+                    win = [(t.type, t.pos[0], t.pos[1]) for t in toks0[:m]]
+                    if m < len(toks0):
+                        win.append((toks0[-1].type, toks0[-1].pos[0], toks0[-1].pos[1]))
+                    if reads[1] < -1:
+                        win = [(t.type, t.pos[0], t.pos[1]) for t in toks0]
+                    item["win"] = win
+                    item["em"] = [(e.name, e.highlights[0].lineno, e.highlights[0].column) for e in inner[before:]]
+                    args.append(item)
             reg.run_rules = rr
             orig_update = ctx.update
             udepth = [0]
@@ -91,12 +129,18 @@ def trace_run(src, name, limit=4.0):
                         rule, nl, opens, before = pending[0]
                         pending[0] = None
                         ch = []
+                        vs = []
                         sc = ctx.scope
+                        root = sc
                         while sc is not None:
                             ch.append((type(sc).__name__, sc.lines, sc.instructions))
+                            vs.append(sc.vars)
+                            root = sc
                             sc = sc.parent
-                        n = sum(1 for e in inner[before:] if e.name == "TOO_MANY_LINES")
-                        trace.append((rule, nl, opens, ch, n))
+                        new = [e.name for e in inner[before:]]
+                        n = new.count("TOO_MANY_LINES")
+                        trace.append((rule, nl, opens, ch, n, (getattr(root, "functions", -1), vs, new.count("TOO_MANY_FUNCS"),
+                                                               new.count("TOO_MANY_VARS_FUNC"))))
             ctx.update = upd
             reg.run(ctx)
     except impl.Timeout:
@@ -135,7 +179,7 @@ def coq_text(items, rules, classes):
         o.append("Definition t%d : list (stmt * obs) := [%s].\n" % (k, ";\n ".join(
             "(X %d %d %d, ([%s], %d))" % (ri[r], nl, 0 if op is None else ci[op] + 1,
                                          "; ".join("(%d, %d, %d)" % (ci[c], l, i) for c, l, i in ch), n)
-            for r, nl, op, ch, n in tr)))
+            for r, nl, op, ch, n in [x[:5] for x in tr])))
     o.append("Eval vm_compute in [%s].\n" % "; ".join("replay cls state0 t%d 0" % k for k in range(len(items))))
     return "".join(o)
 
@@ -167,11 +211,14 @@ def run_coq(k, text):
         return ("error", "unparsable result: " + m.group(1)[:300])
 
 
-def check(run, b, programs, per_file=100):
-    """-> (found, stats).  Only traces of runs that ended normally or fatally are compared (up to where they stopped)."""
+def check(run, b, programs, per_file=100, counters=True):
+    """-> (found, stats).  Only traces of runs that ended normally or fatally are compared (up to where they stopped).
+    counters=True also replays the counter model (functions / vars after every statement, the argument counter of every
+    CheckFuncDeclaration invocation): stats["counters"]."""
     progs = list(programs)
     with mp.Pool(common.NPROC, initializer=_winit, maxtasksperchild=500) as pool:
         res = list(pool.imap(_work, progs, chunksize=8))
+    cfound, cstats = (check_counters(run, res, per_file) if counters else (False, None))
     kept = [(name, src, r) for name, src, r in res if r["trace"]]
     rules = sorted({t[0] for _, _, r in kept for t in r["trace"]})
     classes = sorted({c for _, _, r in kept for t in r["trace"] for c, _, _ in t[3]} | {t[2] for _, _, r in kept for t in r["trace"] if t[2]})
@@ -207,9 +254,120 @@ def check(run, b, programs, per_file=100):
                             "scope chain or the TOO_MANY_LINES emission after this statement"})
     run.count("scope-trace correspondence (statements compared after update; non-trivial = distinct (primary, opened class, "
               "chain classes, emission))", nstmt, len(shapes))
-    return found, {"programs": nprog, "statements": nstmt, "differences": ndiff, "statements_emitting_too_many_lines": emitting,
-                   "distinct_shapes": len(shapes), "coq_files": len(chunks),
-                   "not_compared": sum(1 for _, _, r in res if not r["trace"])}
+    return found or cfound, {"programs": nprog, "statements": nstmt, "differences": ndiff, "statements_emitting_too_many_lines": emitting,
+                             "distinct_shapes": len(shapes), "coq_files": len(chunks),
+                             "not_compared": sum(1 for _, _, r in res if not r["trace"]), "counters": cstats}
+
+
+def coq_counter_text(items, rules, classes):
+    o = ["From NV Require Import Model.CounterTrace.\nOpen Scope Z_scope.\n"]
+    o.append("Definition rls : list str := [%s].\n" % "; ".join('s "%s"' % r for r in rules))
+    o.append("Definition cls : list str := [%s].\n" % "; ".join('s "%s"' % c for c in classes))
+    o.append("Definition X (r : nat) (nl : Z) (o : nat) : stmt :=\n"
+             "  mkstmt (nth r rls []) nl (match o with O => None | S k => Some (nth k cls []) end).\n")
+    ri = {r: i for i, r in enumerate(rules)}
+    ci = {c: i for i, c in enumerate(classes)}
+    for k, tr in enumerate(items):
+        o.append("Definition t%d : list (stmt * cobs) := [%s].\n" % (k, ";\n ".join(
+            "(X %d %d %d, (%d, [%s], %d, %d))" % (ri[r], nl, 0 if op is None else ci[op] + 1, c[0], "; ".join(str(v) for v in c[1]), c[2], c[3])
+            for r, nl, op, ch, n, c in tr)))
+    o.append("Eval vm_compute in [%s].\n" % "; ".join("creplay cstate0 t%d 0" % k for k in range(len(items))))
+    return "".join(o)
+
+
+def coq_args_text(recs, types, codes):
+    o = ["From NV Require Import Model.CounterTrace.\nOpen Scope Z_scope.\n"]
+    o.append("Definition tys : list str := [%s].\n" % "; ".join('s "%s"' % t for t in types))
+    o.append("Definition cds : list str := [%s].\n" % "; ".join('s "%s"' % t for t in codes))
+    o.append("Definition T (k : nat) (l c : Z) : token := mk_tok (nth k tys []) l c.\n")
+    o.append("Definition C (k : nat) (l c : Z) : em := (nth k cds [], l, c).\n")
+    o.append("Definition v0 : view := mkview [] [] false 0 false false.\n")
+    o.append("Definition one (id : Z) (toks : list token) (scope fpos oc : Z) (E : list em) : list Z :=\n"
+             "  if args_agrees (check_func_decl_args toks scope fpos v0) oc E then [] else [id].\n")
+    ti = {t: i for i, t in enumerate(types)}
+    ci = {c: i for i, c in enumerate(codes)}
+    o.append("Eval vm_compute in List.concat [\n%s].\n" % ";\n".join(
+        " one %d [%s] (%d) (%d) %d [%s]" % (k, "; ".join("T %d %d %d" % (ti[t], l, c) for t, l, c in r["win"]), r["scope"], r["fname_pos"], r["oc"],
+                                            "; ".join("C %d %d %d" % (ci[c], l, k2) for c, l, k2 in r["em_m"])) for k, r in enumerate(recs)))
+    return "".join(o)
+
+
+ARGS_CODES = ("EXP_PARENTHESIS", "TOO_MANY_ARGS")     # Gen.Counters.args_codes
+
+
+def check_counters(run, res, per_file=100):
+    """res: [(name, src, trace_run result)]"""
+    found = False
+    kept = [(name, src, r) for name, src, r in res if r["trace"]]
+    rules = sorted({t[0] for _, _, r in kept for t in r["trace"]})
+    classes = sorted({c for _, _, r in kept for t in r["trace"] for c, _, _ in t[3]} | {t[2] for _, _, r in kept for t in r["trace"] if t[2]})
+    chunks = [kept[a:a + per_file] for a in range(0, len(kept), per_file)]
+    texts = [coq_counter_text([r["trace"] for _, _, r in ch], rules, classes) for ch in chunks]
+    # argument counter: every invocation that reached the counting code (not after IsUserDefinedType) and did not raise
+    recs = []
+    skipped = 0
+    for name, src, r in res:
+        for a in r.get("args", []):
+            if a["last"] == "IsUserDefinedType" or a["oc"] != 0:
+                skipped += 1
+                continue
+            a["em_m"] = [e for e in a["em"] if e[0] in ARGS_CODES]
+            recs.append((name, src, a))
+    achunks = [recs[a:a + 400] for a in range(0, len(recs), 400)]
+    types = sorted({t for _, _, a in recs for t, _, _ in a["win"]})
+    atexts = [coq_args_text([a for _, _, a in ch], types, list(ARGS_CODES)) for ch in achunks]
+    with ThreadPoolExecutor(common.NPROC) as ex:
+        outs = list(ex.map(lambda a: run_coq(*a), [(1000 + k, x) for k, x in enumerate(texts)] + [(2000 + k, x) for k, x in enumerate(atexts)]))
+    couts, aouts = outs[:len(texts)], outs[len(texts):]
+    nstmt = ndiff = nfe = nve = 0
+    fv_shapes = set()
+    for ch, out in zip(chunks, couts):
+        if out[0] != "ok":
+            found |= run.violation("correspondence-model-run-failed", {"coqc": out[1], "layer": "counter trace"})
+            continue
+        for (name, src, r), v in zip(ch, out[1]):
+            tr = r["trace"]
+            nstmt += len(tr)
+            for t in tr:
+                nfe += t[5][2]
+                nve += t[5][3]
+                if t[0] in ("IsFuncDeclaration", "IsVarDeclaration"):
+                    fv_shapes.add((t[0], t[5][0], tuple(t[5][1]), t[5][2], t[5][3]))
+            if v != -1:
+                ndiff += 1
+                k = v if v >= 0 else -2 - v
+                found |= run.violation("correspondence-counter-trace", {
+                    "name": name, "src": src, "statement_index": k, "model_stuck": v < -1,
+                    "statement": list(tr[k][:3]) if k < len(tr) else None,
+                    "implementation_after": {"functions": tr[k][5][0], "vars_of_chain": tr[k][5][1], "too_many_funcs_added": tr[k][5][2],
+                                             "too_many_vars_added": tr[k][5][3], "chain": tr[k][3]} if k < len(tr) else None,
+                    "trace_until_there": [list(t[:3]) for t in tr[max(0, k - 8):k + 1]],
+                    "what": "the counter model (Model/CounterTrace.v over Gen/Counters.v) and the implementation disagree about "
+                            "scope.functions / scope.vars or the TOO_MANY_FUNCS / TOO_MANY_VARS_FUNC emission after this statement"})
+    nargs = adiff = aemit = 0
+    ashapes = set()
+    for ch, out in zip(achunks, aouts):
+        if out[0] != "ok":
+            found |= run.violation("correspondence-model-run-failed", {"coqc": out[1], "layer": "argument counter"})
+            continue
+        bad = set(out[1])
+        for k, (name, src, a) in enumerate(ch):
+            nargs += 1
+            aemit += 1 if a["em_m"] else 0
+            ashapes.add((tuple(t for t, _, _ in a["win"][a["fname_pos"]:][:60]), tuple(c for c, _, _ in a["em_m"])))
+            if k in bad:
+                adiff += 1
+                found |= run.violation("correspondence-argument-counter", {
+                    "name": name, "src": src, "record": a,
+                    "what": "the model of the parameter counter of CheckFuncDeclaration (Gen/Counters.check_func_decl_args) and the "
+                            "implementation disagree on this invocation (tokens read, fname_pos, diagnostics)"})
+    run.count("counter-trace correspondence (statements; non-trivial = distinct (rule, functions, vars, emissions) at IsFuncDeclaration / "
+              "IsVarDeclaration matches)", nstmt, len(fv_shapes))
+    run.count("argument-counter correspondence (CheckFuncDeclaration invocations; non-trivial = distinct (token types from the name on, "
+              "emitted codes))", nargs, len(ashapes))
+    return found, {"statements": nstmt, "differences": ndiff, "too_many_funcs_seen": nfe, "too_many_vars_seen": nve,
+                   "args_invocations": nargs, "args_differences": adiff, "args_emitting": aemit, "args_not_compared": skipped,
+                   "coq_files": len(texts) + len(atexts)}
 
 
 def variants(programs, rnd, k=1):
@@ -244,7 +402,7 @@ if __name__ == "__main__":
         def count(self, *a):
             print("count", a)
     rnd = random.Random(1)
-    ps = [(c[2], c[3]) for c in c03.count_cases() if c[0] == "lines"]
+    ps = [(c[2], c[3]) for c in c03.count_cases()]
     fam = [family.program(rnd) for _ in range(int(sys.argv[1]) if len(sys.argv) > 1 else 60)]
-    ps += fam + variants(ps[::7] + fam, rnd)
+    ps += fam + variants([p for p in ps if p[0].endswith(".c")][::7] + fam, rnd)
     print(len(ps), check(R(), None, ps))
